@@ -57,9 +57,9 @@ def insertSortedStr (x : String) : List String → List String
 def validateExternalBindings (st : Story) : Out Unit × Story :=
   let exts := externalNames 100000 st.root st.root []
   let names : Option (List String) := exts.mapM (fun ap =>
-    match pathOf st.root ap.1 with
-    | some own => (Path.compact own ap.2).map String.ofList
-    | none => none)
+    match pathOf st.root ap.1, divertTargetPath st.root ap.1 ap.2 with
+    | some own, .ok target => (Path.compact own target).map String.ofList
+    | _, _ => none)
   match names with
   | none => (.panic "external_functions.rs:get_target_path_string", st)
   | some names =>
@@ -361,7 +361,8 @@ def currentPath (st : Story) : Option (Option String) :=
 /-- `tags_at_start_of_flow_container_with_path_string` -/
 def tagsAtPath (st : Story) (path : String) : Out (List String) :=
   let sr := contentAtPath st.root [] (Path.parse path.toList).comps
-  if !isContainerAt st.root sr.addr then .panic "tags.rs:container_unwrap"
+  let notContainer : Out (List String) := .badArg ("Content at path is not a knot or stitch: " ++ path)
+  if !isContainerAt st.root sr.addr then notContainer
   else
     let rec descend : Nat → Obj → Obj
       | 0, o => o
@@ -370,7 +371,7 @@ def tagsAtPath (st : Story) (path : String) : Out (List String) :=
         | some c => if c.isContainer then descend fuel c else o
         | none => o
     match nodeAt st.root sr.addr with
-    | none => .panic "tags.rs:container_unwrap"
+    | none => notContainer
     | some c0 =>
       let flow := descend 10000 c0
       let rec scan : List Obj → Bool → List String → Out (List String)
